@@ -23,6 +23,18 @@ check("C10", "exploration", "runtime monitor: detect hook and detected-vs-explic
       "Held on every output examined (4*10^4 quick): collection-rooted documents with detection-hostile first keys x 4 output formats x one/many documents, detection observed on a slice and under 3 read schedules, then xt(None->X) vs xt(F->X).",
       "TOML's two exceptions are decided by the harness's own JSON reader and libyaml-event reader. Empty-table TOML output (zero bytes) is skipped.",
       "DESIGN.md 3/C10")
+check("C09", "exploration", "runtime monitor: detect hook + detected-vs-explicit differential on scheduled readers; reference model of the rewindable input handle over all short operation programs",
+      "Held on every execution: (a,b) 2.4*10^4 inputs quick / 8*10^5 thorough (mixed corpus plus inputs aimed at each detection trial) x slice + 4 read schedules; (d) bounded-exhaustive: EVERY program of up to 3 (quick) / 4 (thorough) tokens {new borrow, read(n), prefix(n)} x every data size 0..6 x EVERY chunking x both ways of taking ownership (10^6..10^8 runs) against a non-deterministic reference model.",
+      "For failing reader runs the detected run is compared with explicit reader runs under the same and three other schedules (which error of several is met first, and how much was written before it, depend on read-ahead); on success output bytes must be identical.",
+      "DESIGN.md 3/C09")
+check("C11", "fault_enumeration", "runtime oracle over planted defects: syntax error at every byte position; unrepresentable construct at random paths vs the target crate's own reason; failing writer at every output byte vs the serializer's own wording",
+      "Held on every planted defect executed (2.4*10^5 quick): every byte position of small documents x 3 damage kinds x 4 sources x slice/reader; 4 unrepresentable constructs from every source that can spell them; every output byte x 2 fault styles x 4 targets.",
+      "Input-side cases are kept only when the harness's independent reader confirms the input is malformed and xt refuses it for all streaming targets; message equality with the source crate called directly is not demanded.",
+      "DESIGN.md 3/C11")
+check("C12", "fault_enumeration", "fault injection at the Read/Write boundary: reader failing from every byte offset, writer failing from every output byte, short writes, failing flush",
+      "Held on every fault point executed (4.8*10^5 quick): every reader offset 0..=len (4 error kinds rotating, 3 schedules) and every writer offset below the fault-free length (2 styles, slice and reader input) for ~1.2*10^3 (input, from, to) combinations whose fault-free run succeeds; short-write patterns; flush.",
+      "A reader that fails keeps failing; for YAML output one trailing '---' header is allowed before the prefix rule is applied.",
+      "DESIGN.md 3/C12")
 
 for pid in ["C01","C03","C04","C05","C06","C07","C08","C09","C10","C11","C12","C13","C14","C15","C16","C17","C18"]:
     if pid not in CHECKS:
